@@ -302,7 +302,9 @@ def _default(f_type: Type, f_value: Any, config_cls: Type[BaseConfig]) -> Any:
         x: f_type = f_value  # type: ignore
 
         class Config(config_cls):  # type: ignore
-            pass
+            omit_none = False
+            omit_default = False
+            serialize_by_alias = False
 
     return CC(f_value).to_dict()["x"]
 
